@@ -43,7 +43,7 @@ def corrupt_hash(src, dst, seed):
 
 def stages(tier, seed):
     big = tier != "quick"
-    pool = "{1,2,3,4,5,6,7,8,9,10,11,12,13,14,15,16,17,18,19,20,21,22,23,24,25,26,27}"
+    pool = "{1,2,3,4,5,6,7,8,9,10,11,12,13,14,15,16,17,18,19,20,21,22,23,24,25,26,27,28,29}"
     hist = tlc_replay("MC_C12_hist", "MC_C12", "C12",
                       dict(constants={"HLen": 2, "PoolIds": pool}, invariants=["Emit"]))
     hist["trace_out"] = "c12.ndjson"
@@ -63,7 +63,7 @@ def stages(tier, seed):
 
 PROPS = {"C12": dict(
     stages=stages, level="exploration",
-    rule="TLC enumerates all histories of length 2 over a 27-request pool chosen to cross every map iteration that feeds "
+    rule="TLC enumerates all histories of length 2 over a 29-request pool chosen to cross every map iteration that feeds "
          "output (did-you-mean ties, input-object messages, introspection lists, several deferred failures, several "
          "validation errors, full introspection); each history runs on a fresh schema through Do and through a normalising "
          "plan cache; the pool is additionally run in 6 (thorough 48) fresh processes x 4 (20) fresh schemas; Trace_C12 "
